@@ -109,6 +109,12 @@ def run(ctx):
             RP = fr(utils.Realp(*cA)); RC = qx.from_np(utils.real_contract(utils.real_expand(An), m, n))
         except Exception as e:
             viol('C02:raises', f'embedding raised {e!r}', A); continue
+        if m * n <= 6:
+            for lname, Al in qx.layouts(An):
+                try:
+                    if fr(utils.real_expand(Al)) != RE: viol('C02:real_expand:memory-layout', f'real_expand depends on the memory layout of its argument ({lname})', A, lname)
+                    if m == n and not np.array_equal(utils.quaternion_to_complex_adjoint(Al), utils.quaternion_to_complex_adjoint(An)): viol('C02:adjoint:memory-layout', f'complex adjoint depends on the memory layout of its argument ({lname})', A, lname)
+                except Exception as e: viol('C02:memory-layout:raises', f'an embedding raised {type(e).__name__} for a {lname} argument: {e}', A, lname)
         if RE != rexp_ref(A): viol('C02:real_expand:layout', 'real_expand differs from the interleaved 4x4-block definition', A, RE, rexp_ref(A))
         if RP != realp_ref(A): viol('C02:Realp:layout', 'Realp differs from the component-blocked definition', A, RP, realp_ref(A))
         if not qx.eq(RC, A): viol('C02:roundtrip', 'real_contract(real_expand(A)) != A', A, RC)
